@@ -76,7 +76,6 @@ ITEMS = [
     Fn(API, 'impl PolicySet > fn add', name='PolicySet::add', wrap=W,
        requires=[('inv', 'winv(*old(self))'), ('static_shape', 'policy.ast.spec_id() == policy.ast.spec_template().spec_id() ==> !policy.ast.spec_template().spec_has_slots()')],
        rewrites=[(r'PolicySetError::ExpectedStatic\(\s*policy_set_errors::ExpectedStatic::new\(\),?\s*\)', 'vx_pse()', 1)],
-       proof_start='proof { let k = PolicyId(policy.ast.spec_id()); assert(self.templates@.contains_key(k) <==> self.ast.vt().contains_key(k.0) && !self.ast.vl().contains_key(k.0)); }',
        ensures=[('inv', 'winv(*final(self))'),
                 ('ok_iff', 'r is Ok <==> policy.ast.spec_id() == policy.ast.spec_template().spec_id() && !old(self).ast.vl().contains_key(policy.ast.spec_id()) && (old(self).ast.vt().contains_key(policy.ast.spec_id()) ==> *old(self).ast.vt()[policy.ast.spec_id()] == policy.ast.spec_template())'),
                 ('effect', 'r is Ok ==> final(self).policies@ == old(self).policies@.insert(PolicyId(policy.ast.spec_id()), policy) && final(self).templates@ == old(self).templates@ && final(self).ast.vl() == old(self).ast.vl().insert(policy.ast.spec_id(), policy.ast)'),
@@ -112,9 +111,8 @@ ITEMS = [
        requires=[('inv', 'winv(*old(self))')],
        rewrites=[(r'(?s)let unwrapped_vals: HashMap<ast::SlotId, ast::EntityUID> = vals\s*\.into_iter\(\)\s*\.map\(\|\(key, value\)\| \(key\.into\(\), value\.into\(\)\)\)\s*\.collect\(\);', 'let unwrapped_vals: HashMap<ast::SlotId, ast::EntityUID> = vx_unwrap_vals(vals);', 1),
                  (r'policy_set_errors::ExpectedTemplate::new\(\)\.into\(\)', 'vx_pse()', None),
-                 (r'(?s)policy_set_errors::LinkingError \{\s*inner: ast::LinkingError::NoSuchTemplate \{\s*id: template_id\.into\(\),\s*\},\s*\}\s*\.into\(\)', 'vx_pse()', 1),
-                 (r'template_id\.into\(\),', 'template_id.into_core(),', 1),
-                 (r'new_id\.clone\(\)\.into\(\),\s*unwrapped_vals\.clone\(\),', 'new_id.clone().into_core(), unwrapped_vals.clone(),', 1),
+                 (r'(?s)policy_set_errors::LinkingError \{\s*inner: ast::LinkingError::NoSuchTemplate \{\s*id: template_id(\.clone\(\))?\.into\(\),\s*\},\s*\}\s*\.into\(\)', 'vx_pse()', None),
+                 (r'\b(template_id|new_id)(\.clone\(\))?\.into\(\)', r'\1\2.into_core()', None),
                  (r'(?s)let linked_lossless = template\s*\.lossless\s*\.clone\(\)\s*\.link\(.*?\.expect\("ast\.link\(\) didn.t fail above, so this shouldn.t fail"\);', 'let linked_lossless = vx_lossless_link(&template.lossless, new_id.clone().into_core(), &unwrapped_vals);', 1)],
        ensures=[('inv', 'winv(*final(self))'),
                 ('ok_needs', 'r is Ok ==> old(self).templates@.contains_key(template_id) && !old(self).ast.vl().contains_key(new_id.0) && !old(self).ast.vt().contains_key(new_id.0)'),
